@@ -1213,4 +1213,176 @@ theorem allP_run {P : Proc → Prop} (limit : Nat)
   | nil => exact h
   | cons l ls ih => rw [sys_run_cons]; exact ih _ (allP_step limit hinit hstep hctx s l h)
 
+/-! ## tcpStream drain side -/
+
+/-- at most once and in order, always; bytes are held exactly while replies are staged -/
+def DInv (d : Drain) (ids : List Nat) : Prop :=
+  (d.wire ++ d.staged).Sublist ids ∧ (d.held = 0 → d.staged = [])
+
+theorem dinv_flush (d : Drain) (ids : List Nat) (h : DInv d ids) :
+    DInv d.flush.1 ids ∧ (d.flush.2 = true → d.flush.1.staged = []) := by
+  obtain ⟨h1, h2⟩ := h
+  unfold Drain.flush
+  by_cases hw : d.werr = true
+  · rw [if_pos hw]
+    exact ⟨⟨h1, h2⟩, fun hf => by cases hf⟩
+  · rw [if_neg hw]
+    by_cases hh : d.held = 0
+    · rw [if_pos hh]
+      exact ⟨⟨h1, h2⟩, fun _ => h2 hh⟩
+    · rw [if_neg hh]
+      by_cases hb : d.broken = true
+      · rw [if_pos hb]
+        refine ⟨⟨?_, fun _ => rfl⟩, fun hf => by cases hf⟩
+        show (d.wire ++ []).Sublist ids
+        rw [List.append_nil]
+        exact (List.sublist_append_left d.wire d.staged).trans h1
+      · rw [if_neg hb]
+        refine ⟨⟨?_, fun _ => rfl⟩, fun _ => rfl⟩
+        show (d.wire ++ d.staged ++ []).Sublist ids
+        rw [List.append_nil]
+        exact h1
+
+theorem dinv_grow (d : Drain) (ids : List Nat) (id : Nat) (h : DInv d ids) : DInv d (ids ++ [id]) :=
+  ⟨h.1.trans (List.sublist_append_left ids [id]), h.2⟩
+
+theorem dinv_stage (ds mm : Nat) (d : Drain) (ids : List Nat) (id len : Nat) (h : DInv d ids) :
+    DInv (d.stage ds mm id len).1 (ids ++ [id]) := by
+  unfold Drain.stage
+  by_cases hw : d.werr = true
+  · simpa [hw] using dinv_grow d ids id h
+  · by_cases hl : len > mm
+    · simpa [hw, hl] using dinv_grow d ids id h
+    · obtain ⟨hf, hnil⟩ := dinv_flush d ids h
+      by_cases hbig : len + 2 > ds
+      · simp only [hw, hl, hbig, if_true, if_false, Bool.false_eq_true]
+        by_cases hok : d.flush.2 = true
+        · have hs := hnil hok
+          simp only [hok, Bool.not_true, Bool.false_eq_true, if_false]
+          by_cases hb : d.flush.1.broken = true
+          · simp only [hb, if_true]
+            exact dinv_grow _ ids id ⟨hf.1, hf.2⟩
+          · simp only [hb, Bool.false_eq_true, if_false]
+            refine ⟨?_, fun _ => hs⟩
+            have : (d.flush.1.wire ++ [id] ++ d.flush.1.staged) = (d.flush.1.wire ++ d.flush.1.staged) ++ [id] := by
+              rw [hs]; simp
+            simp only
+            rw [this]
+            exact List.Sublist.append hf.1 (List.Sublist.refl _)
+        · have hok' : d.flush.2 = false := by simpa using hok
+          simp only [hok', Bool.not_false, if_true]
+          exact dinv_grow _ ids id hf
+      · simp only [hw, hl, hbig, if_false, Bool.false_eq_true]
+        by_cases hfull : d.held + (len + 2) > ds
+        · simp only [hfull, if_true]
+          by_cases hok : d.flush.2 = true
+          · simp only [hok, Bool.not_true, Bool.false_eq_true, if_false]
+            refine ⟨?_, fun h0 => absurd h0 (by simp only; omega)⟩
+            have : d.flush.1.wire ++ (d.flush.1.staged ++ [id]) = (d.flush.1.wire ++ d.flush.1.staged) ++ [id] := by simp
+            simp only
+            rw [this]
+            exact List.Sublist.append hf.1 (List.Sublist.refl _)
+          · have hok' : d.flush.2 = false := by simpa using hok
+            simp only [hok', Bool.not_false, if_true]
+            exact dinv_grow _ ids id hf
+        · simp only [hfull, if_false, Bool.not_true, Bool.false_eq_true]
+          refine ⟨?_, fun h0 => absurd h0 (by simp only; omega)⟩
+          have : d.wire ++ (d.staged ++ [id]) = (d.wire ++ d.staged) ++ [id] := by simp
+          simp only
+          rw [this]
+          exact List.Sublist.append h.1 (List.Sublist.refl _)
+
+theorem drain_run_cons (ds mm : Nat) (d : Drain) (o : DOp) (os : List DOp) :
+    Drain.run ds mm d (o :: os) = ((Drain.run ds mm (d.step ds mm o).1 os).1, (d.step ds mm o).2 :: (Drain.run ds mm (d.step ds mm o).1 os).2) := rfl
+
+theorem dinv_run (ds mm : Nat) (d : Drain) (ids : List Nat) (ops : List DOp) (h : DInv d ids) :
+    DInv (Drain.run ds mm d ops).1 (ids ++ stagedIds ops) := by
+  induction ops generalizing d ids with
+  | nil => simpa [Drain.run, stagedIds] using h
+  | cons o os ih =>
+    rw [drain_run_cons]
+    cases o with
+    | stage id len =>
+      have := ih _ _ (dinv_stage ds mm d ids id len h)
+      simpa [Drain.step, stagedIds, List.append_assoc] using this
+    | flush =>
+      have := ih _ _ (dinv_flush d ids h).1
+      simpa [Drain.step, stagedIds] using this
+    | «break» =>
+      have : DInv ({ d with broken := true } : Drain) ids := ⟨h.1, h.2⟩
+      have := ih _ _ this
+      simpa [Drain.step, stagedIds] using this
+
+/-- no write error ever: everything staged is on the wire or still staged, nothing else -/
+def DEq (d : Drain) (ids : List Nat) : Prop :=
+  d.wire ++ d.staged = ids ∧ d.werr = false ∧ d.broken = false ∧ (d.held = 0 → d.staged = [])
+
+theorem deq_flush (d : Drain) (ids : List Nat) (h : DEq d ids) :
+    DEq d.flush.1 ids ∧ d.flush.2 = true ∧ d.flush.1.staged = [] ∧ d.flush.1.held = 0 := by
+  obtain ⟨h1, h2, h3, h4⟩ := h
+  unfold Drain.flush
+  simp only [h2, Bool.false_eq_true, if_false, h3]
+  by_cases hh : d.held = 0
+  · rw [if_pos hh]
+    exact ⟨⟨h1, h2, h3, h4⟩, rfl, h4 hh, hh⟩
+  · rw [if_neg hh]
+    refine ⟨⟨?_, (by first | assumption | rfl | simp_all), (by first | assumption | rfl | simp_all), fun _ => rfl⟩, rfl, rfl, rfl⟩
+    show d.wire ++ d.staged ++ [] = ids
+    rw [List.append_nil]; exact h1
+
+theorem deq_stage (ds : Nat) (d : Drain) (ids : List Nat) (id len : Nat) (hl : len ≤ 65535) (h : DEq d ids) :
+    DEq (d.stage ds 65535 id len).1 (ids ++ [id]) ∧ (d.stage ds 65535 id len).2 = true := by
+  obtain ⟨hf, hok, hnil, hheld⟩ := deq_flush d ids h
+  obtain ⟨h1, h2, h3, h4⟩ := h
+  unfold Drain.stage
+  have hl' : ¬ len > 65535 := by omega
+  simp only [h2, Bool.false_eq_true, if_false, hl']
+  by_cases hbig : len + 2 > ds
+  · rw [if_pos hbig]
+    simp only [hok, Bool.not_true, Bool.false_eq_true, if_false, hf.2.2.1]
+    refine ⟨⟨?_, (by first | assumption | rfl | exact hf.2.1 | exact hf.2.2.1 | simp_all), (by first | assumption | rfl | exact hf.2.1 | exact hf.2.2.1 | simp_all), fun _ => hnil⟩, by trivial⟩
+    show d.flush.1.wire ++ [id] ++ d.flush.1.staged = ids ++ [id]
+    rw [hnil, List.append_nil, ← hf.1, hnil, List.append_nil]
+  · rw [if_neg hbig]
+    by_cases hfull : d.held + (len + 2) > ds
+    · rw [if_pos hfull]
+      simp only [hok, Bool.not_true, Bool.false_eq_true, if_false]
+      refine ⟨⟨?_, (by first | assumption | rfl | exact hf.2.1 | exact hf.2.2.1 | simp_all), (by first | assumption | rfl | exact hf.2.1 | exact hf.2.2.1 | simp_all), fun h0 => absurd h0 (by simp only; omega)⟩, by trivial⟩
+      show d.flush.1.wire ++ (d.flush.1.staged ++ [id]) = ids ++ [id]
+      rw [← List.append_assoc, hf.1]
+    · rw [if_neg hfull]
+      simp only [Bool.not_true, Bool.false_eq_true, if_false]
+      refine ⟨⟨?_, (by first | assumption | rfl | exact hf.2.1 | exact hf.2.2.1 | simp_all), (by first | assumption | rfl | exact hf.2.1 | exact hf.2.2.1 | simp_all), fun h0 => absurd h0 (by simp only; omega)⟩, by trivial⟩
+      show d.wire ++ (d.staged ++ [id]) = ids ++ [id]
+      rw [← List.append_assoc, h1]
+
+theorem deq_run (ds : Nat) (d : Drain) (ids : List Nat) (ops : List DOp) (hn : noBreak ops = true) (h : DEq d ids) :
+    DEq (Drain.run ds 65535 d ops).1 (ids ++ stagedIds ops) ∧ ∀ b ∈ (Drain.run ds 65535 d ops).2, b = true := by
+  induction ops generalizing d ids with
+  | nil => exact ⟨by simpa [Drain.run, stagedIds] using h, by simp [Drain.run]⟩
+  | cons o os ih =>
+    rw [drain_run_cons]
+    cases o with
+    | stage id len =>
+      simp only [noBreak, Bool.and_eq_true, decide_eq_true_eq] at hn
+      obtain ⟨hs, hok⟩ := deq_stage ds d ids id len hn.1 h
+      obtain ⟨i1, i2⟩ := ih _ _ hn.2 hs
+      refine ⟨by simpa [Drain.step, stagedIds, List.append_assoc] using i1, ?_⟩
+      intro b hb
+      simp only [Drain.step, List.mem_cons] at hb
+      rcases hb with rfl | hb
+      · exact hok
+      · exact i2 b hb
+    | flush =>
+      simp only [noBreak] at hn
+      obtain ⟨hs, hok, _, _⟩ := deq_flush d ids h
+      obtain ⟨i1, i2⟩ := ih _ _ hn hs
+      refine ⟨by simpa [Drain.step, stagedIds] using i1, ?_⟩
+      intro b hb
+      simp only [Drain.step, List.mem_cons] at hb
+      rcases hb with rfl | hb
+      · exact hok
+      · exact i2 b hb
+    | «break» => simp [noBreak] at hn
+
 end SdnsVerif.Lemmas.OneReply
